@@ -75,6 +75,7 @@ func checkC09(p *Program, r *Report) {
 		"ow-specgen orders Dimensions by ranging over a map: with two or more dimension names in one model its output would be order-dependent; all specs have at most one today and the rule fails if one gets two")
 
 	checkDescribeParameter(p, r)
+	checkCatalogLinked(p, r)
 
 	// ---- R09.1
 	tmp, err := os.MkdirTemp("", "owregen")
